@@ -1325,9 +1325,22 @@ func randomKey(n int) string {
 	return fmt.Sprintf("%x", b)
 }
 
+// reset empties the dataset that is built from the log: the collections
+// and the hooks and channels with all of their indexes.
 func (s *Server) reset() {
 	s.aofsz = 0
 	s.cols.Clear()
+	s.hooks.Ascend(nil, func(item interface{}) bool {
+		item.(*Hook).Close()
+		return true
+	})
+	s.groupHooks.Clear()
+	s.groupObjects.Clear()
+	s.hookExpires.Clear()
+	s.hooks.Clear()
+	s.hooksOut.Clear()
+	s.hookTree.Clear()
+	s.hookCross.Clear()
 }
 
 func (s *Server) command(msg *Message, client *Client) (
